@@ -113,6 +113,42 @@ def impl_replay(job):
     return {"out": out}
 
 
+def impl_moments(job):
+    """A-DelayDist: the samplers at parameter values OUTSIDE the rational scheme of DelaySsa.tla (gamma shapes such as 1, 3/2, 2, where
+    1/sqrt(9d) is irrational) are bound to 'Gaussian(mean, std)' / 'Gamma(shape k, scale theta)' by their first two moments on seeded
+    samples (6 standard errors; the seeds are fixed by VERIF_SEED, so the outcome is deterministic)."""
+    import math
+    import numpy as np
+    from bioscrape.types import Model
+    import bioscrape.random as brandom
+    out = []
+    for case in job["cases"]:
+        fam, a, b_, N, seed = case["fam"], case["a"], case["b"], case["n"], case["seed"]
+        try:
+            dd = {"mean": a, "std": b_} if fam == "gaussian" else {"k": a, "theta": b_}
+            m = Model(species=["A", "B"], reactions=[(["A"], [], "massaction", {"k": 1.0}, fam, [], ["B"], dd)], initial_condition_dict={"A": 1, "B": 0})
+            dl = m.get_delays()[0]
+            st, pv = np.array([1.0, 0.0]), m.get_parameter_values().copy()
+            brandom.py_seed_random(seed)
+            xs = np.array([dl.py_get_delay(st, pv) for _ in range(N)])
+            mean, var = (a, b_ * b_) if fam == "gaussian" else (a * b_, a * b_ * b_)
+            kurt = 0.0 if fam == "gaussian" else 6.0 / a
+            se_mean = math.sqrt(var / N)
+            se_var = var * math.sqrt((2.0 + kurt) / N)
+            gm, gv = float(xs.mean()), float(xs.var(ddof=1))
+            r = {"ok": True, "mean": gm, "var": gv}
+            if not np.all(np.isfinite(xs)) or (fam == "gamma" and float(xs.min()) < 0):
+                r = {"ok": False, "what": "support", "detail": "%s(%r, %r): a sample is not finite or negative" % (fam, a, b_)}
+            elif abs(gm - mean) > 6 * se_mean:
+                r = {"ok": False, "what": "mean", "detail": "%s(%r, %r): sample mean %.6g of %d draws, distribution mean %.6g (6 standard errors = %.3g)" % (fam, a, b_, gm, N, mean, 6 * se_mean)}
+            elif abs(gv - var) > 6 * se_var:
+                r = {"ok": False, "what": "variance", "detail": "%s(%r, %r): sample variance %.6g of %d draws, distribution variance %.6g (6 standard errors = %.3g)" % (fam, a, b_, gv, N, var, 6 * se_var)}
+        except BaseException as e:  # noqa
+            r = {"ok": False, "what": "exception", "detail": repr(e)[:300]}
+        out.append(r)
+    return {"out": out}
+
+
 def impl_replay_dv(job):
     """DelayVolumeSsa behaviours through DelayVolumeSSASimulator / py_simulate_model(delay=True, volume=..)."""
     import numpy as np
@@ -230,6 +266,21 @@ def run(tier):
             else:
                 fams = "+".join(sorted({rx["delay"]["type"] for rx in rec["prog"]["rx"]}))
                 v.violation("replay:%s:%s" % (got["what"], fams), got["detail"], {"rec": rec, "via": job["via"], "got": got})
+    # ---- A-DelayDist: moments of the samplers at parameter values outside the rational scheme
+    mcases = []
+    for j, (fam, a, b_) in enumerate([("gamma", k, th) for k in (1.0, 1.5, 2.0, 3.0, 0.5, 7.25) for th in (0.25, 1.0, 4.0)] +
+                                     [("gaussian", mu, sd) for mu in (0.0, 2.5, 40.0) for sd in (0.125, 1.0, 3.0)]):
+        mcases.append({"fam": fam, "a": a, "b": b_, "n": 20000 if tier == "quick" else 200000, "seed": seed * 7919 + 31 * j + 5})
+    mom_ok = 0
+    for job, res in zip([{"cases": ch} for ch in pool.chunks(mcases, 3)], pool.run_jobs("c10", "impl_moments", [{"cases": ch} for ch in pool.chunks(mcases, 3)])):
+        if "harness_exception" in res:
+            raise common.MachineryError("C10 moments harness failed: %s\n%s" % (res["harness_exception"], res.get("tb", "")))
+        for i, case in enumerate(job["cases"]):
+            got = {"ok": False, "what": "crash", "detail": "worker died: %s" % res["crash"]} if "crash" in res else res["out"][i]
+            if got["ok"]:
+                mom_ok += 1
+            else:
+                v.violation("delay-distribution:%s:%s" % (case["fam"], got["what"]), got["detail"], {"case": case, "got": got})
     # ---- the delay + volume simulator (DelayVolumeSsa.tla)
     g3 = common.run_tlc_many("DelayVolumeSsa", dvssa_cfg("dvssa_a", 2, 3, 2, 6), 8, n // 2, 180, seed + 41, allow_violation=True)
     if g3.violated:
@@ -293,7 +344,7 @@ def run(tier):
            "traces_validated_against_impl": ok + accepted + ok_dv, "delay_volume_behaviours_replayed": len(g3.records), "delay_volume_behaviours_exact": ok_dv,
            "samples": [{"prog": s.get("prog"), "dt": s.get("dt"), "x0": s.get("x0"), "steps": s.get("steps", [])[:8], "rows": s.get("rows"), "pending": s.get("pending")}],
            "behaviours_replayed": len(recs), "behaviours_exact": ok, "fire_events": nfire, "fires_by_delay_family": fam,
-           "fires_queued": nq, "gamma_rejected_proposals": nrej, "behaviours_with_preloaded_queue": sum(1 for r in recs if r.get("preload")), "seeded_traces_accepted": accepted, "seeded_runs_skipped_unbounded": skipped,
+           "delay_sampler_moment_cases": len(mcases), "delay_sampler_moment_cases_ok": mom_ok, "fires_queued": nq, "gamma_rejected_proposals": nrej, "behaviours_with_preloaded_queue": sum(1 for r in recs if r.get("preload")), "seeded_traces_accepted": accepted, "seeded_runs_skipped_unbounded": skipped,
            "checker_cmd": g1.cmd + " ; tlc TraceSsa"}
     common.write_evidence(PROP, tier, cov, time.time() - t0, len(v.alarms) + sum(v.known_hit.values()),
                           assumptions=["A-Transforms: Box-Muller yields Normal(mean, std) and Marsaglia-Tsang yields Gamma(k, theta) (cited theorems); the code is bound to the transforms exactly",
@@ -307,6 +358,10 @@ def replay(path):
     case = json.load(open(path))["case"]
     if "rec" in case:
         res = pool.run_jobs("c10", "impl_replay_dv" if case.get("dv") else "impl_replay", [{"recs": [case["rec"]], "via": case.get("via", 0)}], nworkers=1)[0]
+        print(json.dumps(res, indent=1))
+        bad = not res["out"][0]["ok"]
+    elif "case" in case and "fam" in case.get("case", {}):
+        res = pool.run_jobs("c10", "impl_moments", [{"cases": [case["case"]]}], nworkers=1)[0]
         print(json.dumps(res, indent=1))
         bad = not res["out"][0]["ok"]
     else:
